@@ -87,6 +87,7 @@ func runC07(p *Prog, r *Report) {
 	c.checkProductions(prods)
 	c.rejectionGuards(prods)
 	c.literalRank(prods)
+	c7EntryConsumesAll(c.p, c.r)
 	c7CommentTerminator(p, r)
 	c7ReservedUnconditional(p, r)
 }
